@@ -31,14 +31,14 @@ func body1211(name string, typ byte, size int) []byte {
 }
 
 type attOpts struct {
-	maxFiles   int
-	maxChunks  int
-	chunkMax   int
-	hostile    bool // hostile names (C19)
-	withhold   bool // C16: withhold a subset, 0x1212, resend, 0x1212
-	dups       bool // C15: resent chunks
-	markerPct  int  // names / alarm ids containing the marker bytes
-	finAtEnd   bool
+	maxFiles  int
+	maxChunks int
+	chunkMax  int
+	hostile   bool // hostile names (C19)
+	withhold  bool // C16: withhold a subset, 0x1212, resend, 0x1212
+	dups      bool // C15: resent chunks
+	markerPct int  // names / alarm ids containing the marker bytes
+	finAtEnd  bool
 }
 
 // fileName draws a file name valid on the wire for the dialect (no NUL, fits the chunk header).
